@@ -310,6 +310,10 @@ def is_nontrivial(text, c, st):
     return rich(st)
 
 
+NON_NFC_TEXTS = ["title-cafe%CC%81", "a-%E2%84%AB", "-ns-e%CC%81/x-%E1%84%80%E1%85%A1", "-R-e%CC%81/p/-/dr-%E2%84%AB",
+                 "a-~X~b-e%CC%81~E/c", "p/q/-/w-%EF%AC%81-A%CC%8A"]
+
+
 def texts(spec):
     kind = spec["kind"]
     if kind == "tokens":
@@ -322,6 +326,11 @@ def texts(spec):
     elif kind == "grammar":
         rnd = random.Random("%s/C02/%s" % (spec["seed"], spec["part"]))
         g = Gen(rnd)
+        if spec["part"] == 0:
+            # fixed texts first (they do not consume the random stream): arguments that are not in Unicode
+            # normalisation form C - an encoder that normalises spells another string than the parser read
+            for s in NON_NFC_TEXTS:
+                yield s
         for _ in range(spec["n"]):
             s = g.blanks(g.query())
             yield s
